@@ -50,16 +50,14 @@ pub trait SemApi: 'static {
 
 pub struct Borrowed<M>(std::marker::PhantomData<M>);
 impl<M: RawMutex + 'static> SemApi for Borrowed<M> {
-    type Root = Box<GenericSemaphore<M>>;
+    type Root = Owned<GenericSemaphore<M>>;
     type Handle = &'static GenericSemaphore<M>;
     type Fut = GenericSemaphoreAcquireFuture<'static, M>;
     type Rel = GenericSemaphoreReleaser<'static, M>;
     const SHARED: bool = false;
     fn create(fair: bool, permits: usize) -> (Self::Root, Self::Handle) {
-        let b = Box::new(GenericSemaphore::<M>::new(fair, permits));
-        // Safety: the world drops every future / releaser before the root box.
-        let r: &'static GenericSemaphore<M> = unsafe { &*(&*b as *const _) };
-        (b, r)
+        // the world drops every future / releaser before the root
+        Owned::new(GenericSemaphore::<M>::new(fair, permits))
     }
     fn clone_handle(h: &Self::Handle) -> Self::Handle {
         *h
